@@ -736,10 +736,18 @@ class Checker:
         for l in lines: print(l)
         print('%s tier=%s: %d queries, %d decided, %d inconclusive, %d violations, %d unconfirmed counterexamples, %.0fs wall'
               % (self.pid, self.tier, len(self.rows), len(decided), len(incon), len(viol), len(unconfirmed), wall))
-        for r in incon: print('  INCONCLUSIVE %s: %s' % (r['name'], (r.get('reason') or '')[:300]))
+        # thorough tier: a query that is NOT part of the quick plan and ran out of its time / memory budget is reported and listed in the
+        # evidence as undecided (outside the claim) but does not turn the whole run into "no verdict"; every other cause, and every
+        # query of the quick plan, keeps exit 2. A budget overrun is never counted as decided.
+        core = getattr(self, 'core_names', None)
+        def soft(r):
+            why = r.get('reason') or ''
+            return core is not None and r['name'] not in core and (why == 'timeout' or why.startswith('solver out of memory'))
+        hard = [r for r in incon if not soft(r)]
+        for r in incon: print('  INCONCLUSIVE%s %s: %s' % (' (thorough-only query over its budget: outside the claim)' if soft(r) else '', r['name'], (r.get('reason') or '')[:300]))
         for r, f in unconfirmed: print('  UNCONFIRMED (encoding suspect, not a violation) %s: %s native=%s' % (r['name'], f['what'], f.get('replay')))
         if viol: return 1
-        if incon or unconfirmed: return 2
+        if hard or unconfirmed: return 2
         return 0
 
 ASSUMPTIONS = [
@@ -775,6 +783,7 @@ def main():
         for q in qs: print(q.name, q.src, q.entry, q.defs)
         return 0
     ck = Checker(a.pid, a.tier, seed, qs, use_store=not a.no_store, keep=a.keep, validate_seeds=a.validate_seeds, only=a.only)
+    if a.tier != 'quick': ck.core_names = set(q.name for q in plans.plan(a.pid, 'quick', Query))
     ck.run_all()
     extra = getattr(plans, 'extra_checks', None)
     rc = ck.summarize()
